@@ -193,6 +193,14 @@ Definition y_rhs (grow : growth) (h : heap) (e : env) (r : rhs) : option (slot *
         (* growslice: the old elements are copied to a new backing array, then the same loop *)
         vs <- slots_get h se ;;
         match append_vals grow h ek zero sv vs with Some (v, h') => Some (SVal v, h') | None => None end
+  | EAppendSlice ek zero s t =>                              (* appendSlice: dest.Set(reflect.AppendSlice(value(f), value0(f))) *)
+      ss <- y_rv h e s ;; st <- y_rv h e t ;;
+      sv <- slot_get h ss ;; tv <- slot_get h st ;;
+      w <- slice_view tv ;;
+      let '(tb, toff, tlen, _) := w in
+      (* reflect.AppendSlice grows, then Copy: typedslicecopy is a memmove, overlap is handled *)
+      vs <- read_elems h tb toff tlen ;;
+      match append_vals grow h ek zero sv vs with Some (v, h') => Some (SVal v, h') | None => None end
   | ESliceLit es =>                                          (* arrayLit, kind Slice: MakeSlice; a.Index(i).Set(v(f)) *)
       se <- y_rvs h e es ;; vs <- slots_get h se ;;
       let '(l, h') := alloc h (CVal (VArr vs)) in Some (SVal (VSlice (l, []) 0 (length vs) (length vs)), h')
